@@ -160,6 +160,7 @@ func (c *Ctx) Step(step string) string {
 	}
 	a := kv(f[1:])
 	w := c.w
+	w.curSwap = c.id
 	switch f[0] {
 	case "new":
 		c.role, c.chain = f[1], f[2]
@@ -344,6 +345,12 @@ func (c *Ctx) Step(step string) string {
 		if !w.ln.notifiers[c.id+"/"+it.String()] && a["force"] == "" {
 			return "no-notifier"
 		}
+		// the notification means the invoice (if the node created one) is paid
+		for _, inv := range w.ln.invoices {
+			if inv.ours && inv.swapId == c.id && inv.kind == it {
+				inv.paidToUs = true
+			}
+		}
 		if w.ln.payCb == nil {
 			return "no-callback"
 		}
@@ -457,6 +464,7 @@ func (c *Ctx) Run(steps []string) []string {
 	var out []string
 	for _, s := range steps {
 		r := c.Step(s)
+		c.w.curSwap = c.id
 		c.w.flushCrashNote()
 		c.w.note(Obs{Kind: "step", A: map[string]string{"s": s, "r": r, "state": c.state(), "btc": fmt.Sprint(c.w.btc.height), "lbtc": fmt.Sprint(c.w.lbtc.height)}})
 		out = append(out, r)
